@@ -17,12 +17,19 @@ import (
 	"encoding/json"
 	"fmt"
 	"log"
+	"strings"
 )
 
 // JS renders its argument as JSON or as a string indicating an error.
 func JS(x interface{}) string {
 	bs, err := json.Marshal(&x)
 	if err != nil {
+		if uv, is := err.(*json.UnsupportedValueError); is && strings.HasPrefix(uv.Str, "encountered a cycle") {
+			// A '%#v' rendering would follow the cycle until
+			// the stack overflows, which ends the process.
+			log.Printf("warning: testutil.JS error %s", err)
+			return fmt.Sprintf("(%T: %s)", x, err)
+		}
 		log.Printf("warning: testutil.JS error %s for %#v", err, x)
 		return fmt.Sprintf("%#v", x)
 	}
